@@ -146,4 +146,9 @@ def units(ctx):
     from vlib.pyvc.unit import contract_unit as _cu7
     us += [_cu7(c, world_setup=_cc7.setup_mem)
            for c in _cc7.slice_contracts()]
+    # host streams enter the expression lazily (convert_input_data)
+    from contracts import utils as _ut9
+    from vlib.pyvc.unit import contract_unit as _cu9
+    us += [_cu9(c, world_setup=_ut9.setup_input)
+           for c in _ut9.input_contracts() if 'C14' in c.serves]
     return us
